@@ -439,3 +439,227 @@ Proof.
     + intros y Hy. apply A in Hy as [Hy|Hy]; [left; rewrite <- DA; exact Hy|].
       right; left. rewrite topdecls_app, in_app_iff. left. rewrite D1. exact Hy.
 Qed.
+
+(* ------------------------------------------------------------ control nodes with their promotions *)
+
+Lemma map_fst_pair {A B} (f : A -> B) l : map fst (map (fun x => (x, f x)) l) = l.
+Proof. induction l as [|a l IH]; cbn; [reflexivity|]. rewrite IH. reflexivity. Qed.
+
+Lemma wrap_post glob s prom sA decls s3 node cs :
+  promo_decls glob prom sA = (decls, s3) ->
+  declared sA = declared s -> globals sA = globals cs -> incl (gn s) (gn cs) ->
+  decl_of node = [] ->
+  (forall V V', incl (declared s) V -> incl (gn cs) V -> incl V V' -> incl (map fst prom) V' ->
+     scoped_n false V' node = true) ->
+  post s (decls ++ [node]) s3.
+Proof.
+  intros Ep DA GA MG DN HN.
+  destruct (promo_spec _ _ _ _ _ Ep) as (_ & B & _ & _).
+  assert (G3 : incl (gn cs) (gn s3)). { unfold gn in *. rewrite GA in B. exact B. }
+  split; [eapply incl_tran; eauto|].
+  intros V HD HG.
+  eapply promo_wrap; [exact Ep|exact DA|exact HD|exact HG|exact DN|].
+  intros V' I P. eapply HN; [exact HD| |exact I|exact P]. eapply incl_tran; [exact G3|exact HG].
+Qed.
+
+Definition good_branch (s : tst) (gl2 : list gdecl) (x : Z * list cnode * tst) : Prop :=
+  incl (gn (snd x)) (gnames gl2) /\
+  forall V, incl (declared s) V -> incl (gn (snd x)) V -> scoped_b false V (snd (fst x)) = true.
+
+Lemma if_node_scoped pn V V' (brs : list (Z * list cnode * tst)) (els : list cnode) :
+  incl V V' -> incl pn V' ->
+  Forall (fun x => scoped_b false V (snd (fst x)) = true) brs ->
+  scoped_b false V els = true ->
+  scoped_n false V' (NIf (map (fun x => (fst (fst x), map (rewrite_if pn) (snd (fst x)))) brs)
+                         (map (rewrite_if pn) els)) = true.
+Proof.
+  intros I P F E. rewrite scoped_n_unfold. apply andb_true_iff. split.
+  - induction F as [|[[c n] t] r Hx _ IHr]; [reflexivity|].
+    cbn [map scoped_bs fst snd] in *. rewrite IHr, andb_true_r.
+    exact (scoped_map_rewrite_if false pn n V V' I P Hx).
+  - exact (scoped_map_rewrite_if false pn els V V' I P E).
+Qed.
+
+Lemma if_post glob s prom sA decls s3 (brs : list (Z * list cnode * tst)) (els : list cnode) cs :
+  promo_decls glob prom sA = (decls, s3) ->
+  declared sA = declared s -> globals sA = globals cs -> incl (gn s) (gn cs) ->
+  Forall (good_branch s (globals cs)) brs ->
+  (forall V, incl (declared s) V -> incl (gn cs) V -> scoped_b false V els = true) ->
+  post s (decls ++ [NIf (map (fun x => (fst (fst x), map (rewrite_if (map fst prom)) (snd (fst x)))) brs)
+                        (map (rewrite_if (map fst prom)) els)]) s3.
+Proof.
+  intros Ep DA GA MG F EL.
+  eapply wrap_post; [exact Ep|exact DA|exact GA|exact MG|reflexivity|].
+  intros V V' HD HG I P. apply if_node_scoped with (V := V); [exact I|exact P| |].
+  - eapply Forall_impl; [|exact F]. intros x [A Bx]. apply Bx; [exact HD|].
+    eapply incl_tran; [exact A|exact HG].
+  - apply EL; [exact HD|exact HG].
+Qed.
+
+(* ------------------------------------------------------------ the main induction *)
+
+Lemma tr_block_post ml : forall fuel glob ld s ps ns s',
+  tr_block ml fuel glob ld s ps = Some (ns, s') -> post s ns s'.
+Proof.
+  induction fuel as [|f IH]; intros glob ld s ps ns s' H; [discriminate|].
+  destruct ps as [|p rest]; [inversion H; subst; apply post_nil|].
+  assert (K : forall ns0 s1,
+             match tr_block ml f glob ld s1 rest with
+             | None => None | Some (ms, s2) => Some (ns0 ++ ms, s2) end = Some (ns, s') ->
+             post s ns0 s1 -> post s ns s').
+  { intros ns0 s1 Hr Hp.
+    destruct (tr_block ml f glob ld s1 rest) as [[ms s2]|] eqn:E; [|discriminate].
+    inversion Hr; subst. eapply post_seq; [exact Hp|]. eapply IH; eauto. }
+  destruct p; cbn [tr_block] in H.
+  - (* PAssign *)
+    pose proof (tr_assign_post glob x e s) as Hs.
+    destruct (tr_assign glob x e s) as [a0 a1]. eapply K; [exact H|exact Hs].
+  - (* PAug: the target is not checked *)
+    eapply K; [exact H|].
+    split; [apply incl_refl|]. intros V HD HG. split; [reflexivity|]. intros y Hy; left; exact Hy.
+  - (* PTuple *)
+    head_opt H a0 a1 E. eapply K; [exact H|]. eapply tr_tuple_post; exact E.
+  - (* PIf *)
+    head_opt H a0 a1 E. eapply K; [exact H|]. clear H K.
+    destruct (tr_block ml f false ld (child_of s (globals s)) body) as [[ns1 cs1]|] eqn:E1; [|discriminate].
+    match type of E with
+    | context [?B (globals cs1) elifs] => set (BR := B) in *
+    end.
+    assert (HB : forall l gl brs gl', BR gl l = Some (brs, gl') ->
+                 incl (gnames gl) (gnames gl') /\ Forall (good_branch s gl') brs).
+    { induction l as [|[c' b] r IHl]; intros gl brs gl' Hb; cbn in Hb.
+      - inversion Hb; subst. split; [apply incl_refl|constructor].
+      - destruct (tr_block ml f false ld (child_of s gl) b) as [[nsb cs]|] eqn:Eb; [|discriminate].
+        destruct (BR (globals cs) r) as [[rest' gl'']|] eqn:Er; [|discriminate].
+        inversion Hb; subst. destruct (IHl _ _ _ Er) as [M F]. destruct (IH _ _ _ _ _ _ Eb) as [Mb Pb].
+        split; [eapply incl_tran; [exact Mb|exact M]|].
+        constructor; [|exact F].
+        split; [exact M|]. intros V HD HG. exact (proj1 (Pb V HD HG)). }
+    destruct (BR (globals cs1) elifs) as [[brs0 gl1]|] eqn:Ebr; [|discriminate].
+    destruct (HB _ _ _ _ Ebr) as [M0 F0]. destruct (IH _ _ _ _ _ _ E1) as [M1 P1].
+    destruct els as [|e0 els'].
+    + match type of E with context [promo_decls _ ?N _] => remember N as prom eqn:EN end.
+      match type of E with context [promo_decls _ _ ?S] => remember S as sA eqn:ES end.
+      destruct (promo_decls glob prom sA) as [decls s3] eqn:Ep.
+      injection E as <- <-.
+      apply (if_post glob s prom sA decls s3 ((a_id c, ns1, cs1) :: brs0) []
+                     {| declared := declared s; vtypes := vtypes s; globals := gl1; tmpc := tmpc s |}).
+      * exact Ep.
+      * rewrite ES. exact (proj1 (fold_with_ty prom _)).
+      * rewrite ES. exact (proj2 (fold_with_ty prom _)).
+      * eapply incl_tran; [exact M1|exact M0].
+      * constructor; [|exact F0]. split; [exact M0|]. intros V HD HG. exact (proj1 (P1 V HD HG)).
+      * intros V _ _. reflexivity.
+    + destruct (tr_block ml f false ld (child_of s gl1) (e0 :: els')) as [[nse cse]|] eqn:Ee; [|discriminate].
+      destruct (IH _ _ _ _ _ _ Ee) as [Me Pe].
+      match type of E with context [promo_decls _ ?N _] => remember N as prom eqn:EN end.
+      match type of E with context [promo_decls _ _ ?S] => remember S as sA eqn:ES end.
+      destruct (promo_decls glob prom sA) as [decls s3] eqn:Ep.
+      injection E as <- <-.
+      apply (if_post glob s prom sA decls s3 ((a_id c, ns1, cs1) :: brs0) nse cse).
+      * exact Ep.
+      * rewrite ES. exact (proj1 (fold_with_ty prom _)).
+      * rewrite ES. exact (proj2 (fold_with_ty prom _)).
+      * eapply incl_tran; [exact M1|]. eapply incl_tran; [exact M0|exact Me].
+      * assert (UP : forall x, good_branch s gl1 x -> good_branch s (globals cse) x).
+        { intros x [A B]. split; [eapply incl_tran; [exact A|exact Me]|exact B]. }
+        constructor; [|eapply Forall_impl; [exact UP|exact F0]].
+        apply UP. split; [exact M0|]. intros V HD HG. exact (proj1 (P1 V HD HG)).
+      * intros V HD HG. exact (proj1 (Pe V HD HG)).
+  - (* PWhile *)
+    head_opt H a0 a1 E. eapply K; [exact H|]. clear H K.
+    destruct (tr_block ml f false (S ld) (child_of s (globals s)) body) as [[nsb cs]|] eqn:Eb; [|discriminate].
+    destruct (IH _ _ _ _ _ _ Eb) as [Mb Pb].
+    match type of E with context [NWhile _ (map (rewrite_deep ?PN) _)] => remember PN as pn eqn:EPN end.
+    match type of E with context [promo_decls _ ?N _] => remember N as prom eqn:EN end.
+    match type of E with context [promo_decls _ _ ?S] => remember S as sA eqn:ES end.
+    destruct (promo_decls glob prom sA) as [decls s3] eqn:Ep.
+    injection E as <- <-.
+    eapply (wrap_post glob s prom sA decls s3 _ cs); [exact Ep| | |exact Mb|reflexivity|].
+    + rewrite ES. exact (proj1 (fold_with_ty prom _)).
+    + rewrite ES. exact (proj2 (fold_with_ty prom _)).
+    + intros V V' HD HG I P. rewrite scoped_n_unfold.
+      apply scoped_map_rewrite_deep with (V := V); [exact I| |exact (proj1 (Pb V HD HG))].
+      rewrite EN, map_fst_pair in P. exact P.
+  - (* PFor *)
+    head_opt H a0 a1 E. eapply K; [exact H|]. clear H K.
+    match type of E with match tr_block ml f false (S ld) ?B body with _ => _ end = _ =>
+      destruct (tr_block ml f false (S ld) B body) as [[nsb cs]|] eqn:Eb; [|discriminate] end.
+    destruct (IH _ _ _ _ _ _ Eb) as [Mb Pb].
+    match type of E with context [NFor _ _ (map (rewrite_deep ?PN) _)] => remember PN as pn eqn:EPN end.
+    match type of E with context [promo_decls _ ?N _] => remember N as prom eqn:EN end.
+    match type of E with context [promo_decls _ _ ?S] => remember S as sA eqn:ES end.
+    destruct (promo_decls glob prom sA) as [decls s3] eqn:Ep.
+    injection E as <- <-.
+    eapply (wrap_post glob s prom sA decls s3 _ cs); [exact Ep| | |exact Mb|reflexivity|].
+    + rewrite ES. exact (proj1 (fold_with_ty prom _)).
+    + rewrite ES. exact (proj2 (fold_with_ty prom _)).
+    + intros V V' HD HG I P. rewrite scoped_n_unfold.
+      apply scoped_map_rewrite_deep with (V := x :: V).
+      * apply incl_cons; [left; reflexivity|apply incl_tl, I].
+      * apply incl_tl. rewrite EN, map_fst_pair in P. exact P.
+      * apply (Pb (x :: V)).
+        -- cbn. apply incl_app; [apply incl_tl, HD|]. destruct (is_declared x s); [intros y []|].
+           intros y [<-|[]]. left. reflexivity.
+        -- apply incl_tl. exact HG.
+  - (* PBreak *)
+    destruct ld as [|[|ld']]; [discriminate| |].
+    + destruct ml; [discriminate|]. eapply K; [exact H|].
+      split; [apply incl_refl|]. intros V HD HG. split; [reflexivity|]. intros y Hy; left; exact Hy.
+    + eapply K; [exact H|].
+      split; [apply incl_refl|]. intros V HD HG. split; [reflexivity|]. intros y Hy; left; exact Hy.
+  - eapply K; [exact H|].
+    split; [apply incl_refl|]. intros V HD HG. split; [reflexivity|]. intros y Hy; left; exact Hy.
+  - eapply K; [exact H|].
+    split; [apply incl_refl|]. intros V HD HG. split; [reflexivity|]. intros y Hy; left; exact Hy.
+  - destruct (closed_const e); eapply K; try exact H.
+    + apply post_nil.
+    + split; [apply incl_refl|]. intros V HD HG. split; [reflexivity|]. intros y Hy; left; exact Hy.
+Qed.
+
+(* ------------------------------------------------------------ the whole program *)
+
+Theorem transl_scoped p c : transl p = Some c ->
+  scoped_b false (gnames (c_globals c)) (c_setup c) = true /\
+  (topdecls (c_setup c) = [] -> scoped_b false (gnames (c_globals c)) (c_loop c) = true).
+Proof.
+  intros H. unfold transl in H.
+  destruct (tr_block false (bsize (p_pre p)) true 0 st0 (p_pre p)) as [[setup s1]|] eqn:E1; [|discriminate].
+  destruct (tr_block_post _ _ _ _ _ _ _ _ E1) as [M1 P1].
+  destruct (p_main p) as [body|].
+  - destruct (tr_block true (bsize body) false 1 s1 body) as [[loop s2]|] eqn:E2; [|discriminate].
+    destruct (tr_block_post _ _ _ _ _ _ _ _ E2) as [M2 P2].
+    inversion H; subst; cbn [c_globals c_setup c_loop].
+    destruct (P1 (gn s2)) as [S1 C1]; [intros y []|exact M2|].
+    split; [exact S1|]. intros TD.
+    apply (P2 (gn s2)); [|apply incl_refl].
+    intros y Hy. destruct (C1 y Hy) as [[]|[A|A]]; [rewrite TD in A; destruct A|apply M2; exact A].
+  - inversion H; subst; cbn [c_globals c_setup c_loop].
+    destruct (P1 (gn s1)) as [S1 C1]; [intros y []|apply incl_refl|].
+    split; [exact S1|reflexivity].
+Qed.
+
+Corollary transl_scoped_prog p c : transl p = Some c -> topdecls (c_setup c) = [] -> scoped_prog false c = true.
+Proof.
+  intros H T. destruct (transl_scoped p c H) as [A B]. unfold scoped_prog. rewrite A, (B T). reflexivity.
+Qed.
+
+(* ------------------------------------------------------------ the refutations and non-vacuity *)
+
+Theorem tuple_local_refuted :
+  exists p c, transl p = Some c /\ scoped_b false (gnames (c_globals c)) (c_setup c) = true /\
+              topdecls (c_setup c) <> [] /\ scoped_b false (gnames (c_globals c)) (c_loop c) = false.
+Proof.
+  exists tuple_witness. eexists. split; [vm_compute; reflexivity|]. vm_compute. repeat split; discriminate.
+Qed.
+
+Theorem aug_forvar_refuted :
+  exists p c, transl p = Some c /\ topdecls (c_setup c) = [] /\ scoped_prog false c = true /\ scoped_prog true c = false.
+Proof.
+  exists forvar_witness. eexists. split; [vm_compute; reflexivity|]. vm_compute. repeat split; reflexivity.
+Qed.
+
+Example scope_demo_ok :
+  exists c, transl scope_demo = Some c /\ topdecls (c_setup c) = [] /\ scoped_prog false c = true /\
+            length (c_globals c) = 3%nat /\ length (c_loop c) = 8%nat.
+Proof. eexists. split; [vm_compute; reflexivity|]. vm_compute. repeat split; reflexivity. Qed.
